@@ -1,4 +1,4 @@
-import DcmVerif.Proofs.Key
+import DcmVerif.Proofs.Total
 import DcmVerif.Proofs.Ext
 /-! Property theorems for C07. Statements only; proofs are by reference to `Proofs/`. -/
 set_option autoImplicit false
@@ -86,5 +86,32 @@ theorem makeEmpty_refuses {κ : Type} [DecidableEq κ] (shape : List Nat) (sd : 
     (h : ¬ (3 ≤ shape.length ∧ shape.length < 6) ∨ ∃ d, sd = some d ∧ 3 ≤ d) :
     DExt.makeEmpty (κ := κ) (α := α) shape sd = .valueError :=
   DExt.makeEmpty_refuses shape sd h
+
+/-- the result of a vector merge is valid for the merged shape -/
+theorem merge_valid_vector (null : α) (sh1 osh : Shp)
+    (hS : 0 < sh1.S) (hT : 0 < sh1.T) (hsl : sh1.hasSlice = true) (nd5 : sh1.nd = 5)
+    (hvec : sh1.hasVector = true) (htime : sh1.hasTime = true ↔ sh1.T ≠ 1)
+    (ohsl : osh.hasSlice = true) (oS : osh.S = sh1.S) (oT : osh.T = sh1.T) (oV : osh.V = 1)
+    (ond : (osh.nd = 3 ∧ sh1.T = 1) ∨ (osh.nd = 4 ∧ sh1.T ≠ 1))
+    (inputs : List (KeyState α)) (hin : ∀ b, b ∈ inputs → ValidK osh b)
+    (r : KeyState α) (h : mergeVecK null sh1 osh inputs = .ok r) :
+    ValidK { sh1 with V := inputs.length } r :=
+  Total.mergeVec_valid null sh1 osh hS hT hsl nd5 hvec htime ohsl oS oT oV ond inputs hin r h
+
+/-- **conversion produces a valid summary:** the key state embedded by `to_nifti` for a complete
+    S × T × V stack is valid for the shape of the image -/
+theorem convert_valid (null : α) (S T V : Nat) (hS : 0 < S) (hT : 2 ≤ T)
+    (val : Nat → Nat → Nat → Option α)
+    (vol : Nat → Nat → KeyState α) (vec : Nat → KeyState α) (r : KeyState α)
+    (hvol : ∀ t v, t < T → v < V →
+      mergeSliceK null ⟨3, 1, 1, 1, true, false, false⟩
+        ((List.range S).map fun s => fileKS (val s t v)) = .ok (vol t v))
+    (hvec : ∀ v, v < V →
+      mergeTimeK null ⟨4, S, 1, 1, true, true, false⟩ ⟨3, S, 1, 1, true, false, false⟩
+        ((List.range T).map fun t => vol t v) = .ok (vec v))
+    (hfin : mergeVecK null ⟨5, S, T, 1, true, true, true⟩ ⟨4, S, T, 1, true, true, false⟩
+        ((List.range V).map vec) = .ok r) :
+    ValidK ⟨5, S, T, V, true, true, true⟩ r :=
+  Total.convert_valid null S T V hS hT val vol vec r hvol hvec hfin
 
 end C07
